@@ -222,6 +222,38 @@ pub fn check(ctx: &Ctx) -> i32 {
                 }
             }
             judge(&cfg, &with_rejects, (75_000 + idx as u64, k as u64), t);
+            // the same history with an explicit write halfway to the next automatic timestamp after
+            // every automatic call but the last of its track: the automatic clocks count the
+            // encode_* calls only, an explicit timestamp in between neither advances nor rewinds them
+            let rate = cfg.audio.as_ref().map(|a| a.rate as f64).unwrap_or(48000.0);
+            let (mut ca, mut cv) = (0.0f64, 0.0f64);
+            let n_ea = ops.iter().filter(|o| matches!(o, Op::EA { .. })).count();
+            let n_ev = ops.iter().filter(|o| matches!(o, Op::EV { .. })).count();
+            let (mut ia, mut iv) = (0usize, 0usize);
+            let mut mixed = vec![];
+            for o in &ops {
+                mixed.push(o.clone());
+                match o {
+                    Op::EA { samples, .. } => {
+                        ia += 1;
+                        let mid = ca + *samples as f64 / rate / 2.0 + 1.0e-5;
+                        ca += *samples as f64 / rate;
+                        if ia < n_ea && oracle::refmodel::tick_is_robust(mid) {
+                            mixed.push(Op::WA { pts: T(mid), data: Bytes::new(audio_frame(*ac, 40 + ia as u32, 7).0) });
+                        }
+                    }
+                    Op::EV { dur_ms, .. } => {
+                        iv += 1;
+                        let mid = cv + *dur_ms as f64 / 2000.0 + 1.0e-5;
+                        cv += *dur_ms as f64 / 1000.0;
+                        if iv < n_ev && oracle::refmodel::tick_is_robust(mid) {
+                            mixed.push(Op::WV { pts: T(mid), data: Bytes::new(video_frame(VCodec::H264, false, false, 40 + iv as u32, 6).0), key: false });
+                        }
+                    }
+                    _ => {}
+                }
+            }
+            judge(&cfg, &mixed, (78_000 + idx as u64, k as u64), t);
         }
     });
     // far from zero: capture clocks that have been running for hours or years. The absolute
@@ -318,7 +350,7 @@ pub fn check(ctx: &Ctx) -> i32 {
         &tally,
         Meta {
             level: "model_checking",
-            rule: format!("every A/V history over: first video decode time {{0, 1/30, 1, 10 s}} x video shape {{no offsets, first frame +2 frames, later frames -1 frame}} x audio start minus first video presentation {{0, 1 tick, 1024/48000, 0.25, 3 s}} x 2-3 video frames x 2-3 audio frames x audio step pattern {{1024/48000, 1024/44100, 0.02, 0, (0, 1024/48000), (0.02, 0), (0.5, 0.02), (0.003, 0.5): pauses and overlaps relative to the packets' coded durations}}, plus runs of 8 and 12 audio frames at the 48 kHz and 44.1 kHz AAC spacings, plus every audio step sequence of 2..{jmax} steps over {{600, 1200, 1800, 3000}} ticks ({n_jitter} sequences x AAC/Opus), plus every standard AAC sample rate (7350 .. 96000 Hz) x 3 sub-sample displacement patterns (0-30 microseconds) x 2 start times x both layouts, plus {n_conv} encode_video/encode_audio histories (each also with a refused encode_audio call after every accepted one) (every sequence of 2..5 audio frame lengths over Opus {{10, 20, 40, 60 ms}} and AAC {{1024, 2048}}), plus 3 video + 3 audio frames starting 47721 s .. 1e9 s from zero (both sides of 2^32 and 2^33 ticks, audio runs that straddle 2^32 ticks) x plain/reordered video x 5 audio step patterns (two of them 7900 s and 8000 s apart: audio tracks around 2^31 ticks long) x 2 leads x H.264/VP9, also from 0, plus four long histories (66 000 audio frames 1920 ticks apart, 66 000 video frames 3000 ticks apart, both layouts), x {{AAC, Opus}} x both layouts x codecs; executed on the real muxer; per-track presentation timelines rebuilt from stts/ctts (+ edit list if present, empty edits and media_time honoured) and every audio sample's presentation time relative to the first video frame compared with the submitted difference (tolerance 1 tick). Distinct by output bytes."),
+            rule: format!("every A/V history over: first video decode time {{0, 1/30, 1, 10 s}} x video shape {{no offsets, first frame +2 frames, later frames -1 frame}} x audio start minus first video presentation {{0, 1 tick, 1024/48000, 0.25, 3 s}} x 2-3 video frames x 2-3 audio frames x audio step pattern {{1024/48000, 1024/44100, 0.02, 0, (0, 1024/48000), (0.02, 0), (0.5, 0.02), (0.003, 0.5): pauses and overlaps relative to the packets' coded durations}}, plus runs of 8 and 12 audio frames at the 48 kHz and 44.1 kHz AAC spacings, plus every audio step sequence of 2..{jmax} steps over {{600, 1200, 1800, 3000}} ticks ({n_jitter} sequences x AAC/Opus), plus every standard AAC sample rate (7350 .. 96000 Hz) x 3 sub-sample displacement patterns (0-30 microseconds) x 2 start times x both layouts, plus {n_conv} encode_video/encode_audio histories (each also with a refused encode_audio call after every accepted one, and with an explicit write_video / write_audio halfway to the next automatic timestamp after every automatic call) (every sequence of 2..5 audio frame lengths over Opus {{10, 20, 40, 60 ms}} and AAC {{1024, 2048}}), plus 3 video + 3 audio frames starting 47721 s .. 1e9 s from zero (both sides of 2^32 and 2^33 ticks, audio runs that straddle 2^32 ticks) x plain/reordered video x 5 audio step patterns (two of them 7900 s and 8000 s apart: audio tracks around 2^31 ticks long) x 2 leads x H.264/VP9, also from 0, plus four long histories (66 000 audio frames 1920 ticks apart, 66 000 video frames 3000 ticks apart, both layouts), x {{AAC, Opus}} x both layouts x codecs; executed on the real muxer; per-track presentation timelines rebuilt from stts/ctts (+ edit list if present, empty edits and media_time honoured) and every audio sample's presentation time relative to the first video frame compared with the submitted difference (tolerance 1 tick). Distinct by output bytes."),
             bound: "2-3 video frames, 2-3 audio frames (8 and 12 for the two constant spacings)".into(),
             exhaustive: true,
             assumptions: vec!["the known finding C09/no-start-offset is matched only when neither track has an edit list and every audio sample is off by exactly the lost start offset; any other deviation is reported as a violation".into()],
